@@ -447,6 +447,7 @@ func runFetchOrder(c *harness.Ctx) harness.Result {
 			g.Drive([][]string{srcs, nil}, int64(k)*977+int64(c.Index))
 			s := &drv.Session{Flags: &drv.Flags{Bools: map[string]bool{format: true, "functions": true, "flat": true}, Strs: map[string]string{"output": "out", "symbolize": "none"}, Args: srcs}, Fetch: g}
 			rr := s.Run()
+			g.Stop()
 			if rr.Panic != "" || rr.Err != nil {
 				return harness.Violation("multi-source -%s failed: %v %s", format, rr.Err, rr.Panic)
 			}
